@@ -36,6 +36,13 @@ partial def showRes : Res → String
   | .atom t e => s!"{reprStr t}{if e then ":empty" else ""}"
   | .coll ks => "[" ++ ",".intercalate (ks.map showRes) ++ "]"
 
+/-- model result vs observed result: equal, where a MultiPolygon whose union came out as a mixed collection (the model only
+knows its type, `.atom .collection false`) matches any observed collection — at every nesting depth -/
+partial def resSame : Res → Res → Bool
+  | .atom .collection false, .coll _ => true
+  | .coll a, .coll b => a.length == b.length && (a.zip b).all (fun (x, y) => resSame x y)
+  | a, b => showRes a == showRes b
+
 def polyShape (rings : List VSeq) (areaKind : Area) (holesKind : Area) : Shape :=
   match rings with
   | [] => .polygon true .empty 0 0 .empty
@@ -134,7 +141,7 @@ def check (line : String) : String :=
           let isStruct := get "method" == "S"
           let keep := get "keep" == "1"
           let vOut := validRef false vo
-          let tag := s!"method={get "method"} keep={get "keep"} type={reprStr (tyOfG gi.g)} finite={if inFinite then 1 else 0} {inFeatures vi} emptyout={if gEmpty go.g then 1 else 0}"
+          let tag := s!"method={get "method"} keep={get "keep"} type={reprStr (tyOfG gi.g)} finite={if inFinite then 1 else 0} {inFeatures vi} emptyout={if gEmpty go.g then 1 else 0} kraw={get "kraw"}"
           let finiteVerts : List Pt := finiteVertsOf vi
           let checks : List (Unit → Option String) := [
             fun _ => if outFinite then none else some "bad nonfinite-output",
@@ -159,11 +166,21 @@ def check (line : String) : String :=
               | none => none
               | some x => some s!"bad area sample={hptStr x} expected={if expectedIn x (pi.polys.map prepPolygon) then 1 else 0}",
             fun _ =>
+              -- "collapses are kept exactly when requested" inside collections (regression check of finding F5): where the
+              -- model (`fix`) and the behaviour before the fix of fixCollection (`fixDropping`) part, the implementation must
+              -- side with `fix`
+              if !isStruct || !inFinite || !keep then none else
+              let shape := shapeOf vi (some go.g)
+              let wanted := showRes (Fix.fix keep shape)
+              if wanted == showRes (Fix.fixDropping keep shape) then none else
+              let seen := showRes (resOfG go.g)
+              if resSame (Fix.fix keep shape) (resOfG go.g) then none
+              else some s!"bad keep-collapsed incoll=1 wt={wanted.replace "GeosModel.Fix.Ty." ""} it={seen.replace "GeosModel.Fix.Ty." ""}",
+            fun _ =>
               if !isStruct || !inFinite then none else
               let model := Fix.fix keep (shapeOf vi (some go.g))
               let seen := resOfG go.g
-              let same := showRes model == showRes seen ||
-                (match model, seen with | .atom .collection false, .coll _ => true | _, _ => false)
+              let same := resSame model seen
               if same then none else some s!"bad dispatch model={showRes model} impl={showRes seen} mt={(showRes model).replace "GeosModel.Fix.Ty." ""} it={(showRes seen).replace "GeosModel.Fix.Ty." ""}",
             fun _ => if get "idem" == "1" then none else some s!"bad idempotence idem={get "idem"}"]
           let rec first : List (Unit → Option String) → String
